@@ -9,6 +9,7 @@ import (
 	"io"
 	"net/http"
 	"net/http/httptest"
+	"runtime"
 	"sync"
 	"time"
 
@@ -71,6 +72,7 @@ func New(o Options) (*World, error) {
 	if o.Attempts == 0 {
 		o.Attempts = 1
 	}
+	stopRegistry() // a previous world of this process that was not closed
 	wworld.InitPools()
 	rlogger.Logger.SetOutput(io.Discard)
 	st, err := store.New()
@@ -150,12 +152,31 @@ func New(o Options) (*World, error) {
 }
 
 // Close stops the insert services.
-func (w *World) Close() {
+// stopRegistry stops every insert service of the package-level registry of writer/plugin and waits until the worker loops
+// have returned (see the comment below: one registry per process in the product, many worlds per process here).
+func stopRegistry() {
 	for _, m := range []service.InsertSvcMap{plugin.TsSvcs, plugin.SplSvcs, plugin.MtrSvcs, plugin.TempoSamplesSvcs, plugin.TempoTagsSvcs, plugin.ProfileInsertSvcs} {
 		for _, s := range m {
-			s.Stop()
+			if s != nil {
+				s.Stop()
+			}
 		}
 	}
+	// A worker of the previous world that is still inside an iteration would call TsSvcs[node].PlanFlush() on the half-built
+	// service of the NEXT world (nil dereference in the harness, not in the product). Wait until every loop has returned.
+	deadline := time.Now().Add(5 * time.Second)
+	buf := make([]byte, 4<<20)
+	for time.Now().Before(deadline) {
+		n := runtime.Stack(buf, true)
+		if !bytes.Contains(buf[:n], []byte("service.(*InsertServiceV2).Run(")) {
+			return
+		}
+		time.Sleep(2 * time.Millisecond)
+	}
+}
+
+func (w *World) Close() {
+	stopRegistry()
 	if c, ok := plugin.GoCache.(interface{ Stop() }); ok {
 		c.Stop()
 	}
